@@ -166,15 +166,17 @@ CLAIMS = {
          "filter/filter_map/collect chain (closure bodies are spliced verbatim into a hand-written composing loop); signature substitution for impl IntoIterator/AsRef<str> parameters.",
          "Verus data-structure invariant + abstract view on the mechanically extracted real functions", "8.8/C17"),
  "C09": ("proof",
-         "Verus proofs on the thread-lifecycle arms of the real Tracer::apply_new_status (spliced each run: the Exited arm and the "
-         "PTRACE_EVENT_EXEC / CLONE / STOP / EXIT arm) against a ghost thread table: a thread announced by a clone or stop event is in "
-         "the debugger's thread list afterwards and nobody else is added; an exiting thread leaves it; every thread that enters the "
-         "list through such an event receives the watchpoint image; the program's exit is reported exactly when the main thread exits, "
-         "with its code. Scope: ONLY this bookkeeping ('the thread list equals the kernel's list' for one event at a time); all-stop "
-         "(group_stop_interrupt), exactly-once reporting of arrivals per thread and every interleaving question of the property are NOT covered: "
-         "they are kernel-scheduling properties outside contract-based verification (no concurrency in Kani, no permission types in the real code).",
-         "TraceeCtl add/remove/tracee_mut are assumed std-HashMap contracts on a ghost set; ptrace event codes typed from ptrace(2); "
-         "distribution of watchpoints is tracked by a local ghost set at the call sites.",
+         "Verus proofs on the real tracer code against a ghost thread table. (1) Tracer::group_stop_interrupt, extracted whole: when it "
+         "returns Ok (and was not re-entered) EVERY thread the tracer controls is marked stopped -- threads of the snapshot are interrupted "
+         "and marked or have gone, threads that appear meanwhile are added stopped -- and the re-entrancy guard is released. (2) The "
+         "thread-lifecycle arms of apply_new_status (Exited, PTRACE_EVENT_EXEC / CLONE / STOP / EXIT): a thread announced by a clone or stop "
+         "event is in the thread list afterwards and nobody else is added, an exiting thread leaves it, every thread that enters the list "
+         "receives the watchpoint image, the program's exit is reported exactly when the main thread exits. Scope: the debugger's own "
+         "bookkeeping for one call; that a thread marked stopped is stopped in the kernel, the two-round heuristic against threads created "
+         "late, exactly-once reporting of arrivals per thread and every interleaving question are NOT covered (kernel scheduling: outside "
+         "contract-based verification; no concurrency in Kani, no permission types in the real code).",
+         "assumed: nested apply_new_status never un-marks a stopped thread and adds threads stopped; TraceeCtl accessors as std-HashMap contracts on a ghost map; "
+         "ptrace event codes typed from ptrace(2); the two for loops rewritten to index loops; termination of the wait loop not claimed.",
          "Verus contracts on mechanically spliced match arms of the real function", "8.11/C09"),
  "C03": ("proof",
          "Verus proofs on the real step code: single_step_instruction executes exactly one instruction of the focused thread (through "
